@@ -186,7 +186,11 @@ def main(argv=None):
         w = f['witness']
         r = run_replay(REPLAY_PY, prop, w['obligation'], w.get('tier', a.tier), w['args_src'])
         validated += 1
-        if r.get('holds') is False:
+        exc_text = str(r.get('exception') or '')
+        if r.get('holds') is False and exc_text.startswith('TypeError') and 'argument' in exc_text:
+            # the harness function no longer takes the recorded arguments: the witness is stale, not "still failing"
+            harness_errors.append('witness of finding %s does not fit the harness function any more: %s' % (f.get('id'), exc_text[:200]))
+        elif r.get('holds') is False:
             known_lines.append('KNOWN-FINDING: property=%s %s' % (prop, f['what']))
             if f.get('region'):
                 excluded.add(f['region'])
